@@ -45,7 +45,9 @@ class Choices:
             if self.pos < len(self.replay):
                 rec = self.replay[self.pos]
                 rv = rec[1]
-                if isinstance(rv, int) and 0 <= rv < n:
+                # a value recorded for a *different* decision (the trace was edited while being
+                # minimised and got out of step) is ignored: the boring default is taken instead
+                if rec[0] == label and isinstance(rv, int) and 0 <= rv < n:
                     v = rv
             else:
                 self.overrun += 1
@@ -62,9 +64,12 @@ class Choices:
         elif self.replay is not None:
             v = 0
             if self.pos < len(self.replay):
-                rv = self.replay[self.pos][1]
-                if rv in (0, 1):
+                rec = self.replay[self.pos]
+                rv = rec[1]
+                if rec[0] == label and rv in (0, 1) and 0.0 < p:
                     v = rv
+                if p >= 1.0:
+                    v = 1
             else:
                 self.overrun += 1
             self.pos += 1
